@@ -188,5 +188,44 @@ def run(chk):
                     if n.get('k') == 'Ret' and n.get('l', 0) < upd_line and not any(x is n for t_ in T.walk(arm['b']) if t_.get('k') == 'Match' and t_.get('src') == 'Try' for x in T.walk(t_)):
                         chk.bad('C28-R7', 'Server::handle_notification', 'return-before-update', 'didChange returns before incremental_update', SRV, n.get('l'))
                 chk.floor('fallible steps before the update', nexit, 1)
+    order_rule(chk, fx)
     return ('Structural rules on els::util::pos_to_byte_index (units of the column counter, forms of returned indices, line clamp), on the no-range path of incremental_update '
             'and a coupled-state rule for the file cache / VFS. Equality of documents over edit histories is not decided.'), {}
+
+
+def order_rule(chk, fx):
+    chk.rule('C28-R8', 'the content changes of one didChange notification are applied in the order of the array, each to the result of the previous one (LSP 3.17, '
+                       'DidChangeTextDocumentParams): the loop of FileCache::incremental_update runs over `params.content_changes` as received — nothing on the way from the parameter to '
+                       'the loop sorts, reverses, filters or truncates it; with the changes sorted bottom-up, two edits whose ranges refer to successive states land in the wrong lines')
+    f = fx.fn(CACHE, 'FileCache::incremental_update')
+    REORDER = {'sort', 'sort_by', 'sort_by_key', 'sort_unstable', 'sort_unstable_by', 'sort_unstable_by_key', 'sort_by_cached_key', 'reverse', 'rev', 'retain', 'dedup', 'dedup_by',
+               'dedup_by_key', 'filter', 'filter_map', 'skip', 'take', 'step_by', 'swap', 'rotate_left', 'rotate_right', 'truncate', 'drain', 'pop', 'remove', 'swap_remove', 'split_off',
+               'skip_while', 'take_while', 'last', 'nth', 'first'}
+    lets = {}
+    for n in T.walk(f['body']):
+        if n.get('k') == 'Let' and n.get('init') is not None:
+            for b in T.walk(n['pat']):
+                if b.get('k') == 'Bind':
+                    lets[b['id']] = n['init']
+
+    def from_changes(e, seen=()):
+        if 'content_changes' in T.show(e):
+            return True
+        return any(x.get('k') == 'Local' and x.get('id') in lets and x['id'] not in seen and from_changes(lets[x['id']], seen + (x['id'],)) for x in T.walk(e))
+    loops = [m for m in T.walk(f['body']) if m.get('k') == 'Match' and m.get('src') == 'ForLoopDesugar' and (T.callee(T.peel(m['x'])) or '').endswith('into_iter') and from_changes(m['x'])]
+    if not chk.need(len(loops) >= 1, 'incremental_update: no loop over the content changes'):
+        return
+    offenders = []
+    for c in T.calls(f['body']):
+        if c.get('k') == 'MCall' and c['n'] in REORDER and from_changes(c['r']):
+            # inside the loop body the per-change code may index / slice the *text*; only operations on the change list count
+            if any(c is x for lp in loops for a in lp['arms'] for x in T.walk(a['b'])) and 'content_changes' not in T.show(c['r']) and not any(
+                    x.get('k') == 'Local' and x.get('id') in lets and from_changes(lets[x['id']]) for x in T.walk(c['r'])):
+                continue
+            offenders.append(c)
+    if offenders:
+        c = offenders[0]
+        chk.bad('C28-R8', 'FileCache::incremental_update', 'reordered:' + c['n'], 'incremental_update calls `%s` on the list of content changes before applying them: the changes are no longer '
+                'applied in array order — client "# note\\na = 1\\nyb = 2\\n.." vs server "# note\\na = 1\\nb = 2\\nyc = 3\\n" for an insert above a later edit' % T.show(c)[:60], CACHE, c.get('l'))
+    else:
+        chk.ok('C28-R8', 'array-order', sample='for change in %s' % T.show(loops[0]['x'])[:60])
